@@ -132,6 +132,8 @@ KPC_CM = 3.0856775814913674e21          # (1 kpc).to(cm) in astropy: the distanc
 def to_mjy(pkg, x, nu):
     """exact value in mJy of the number x stored in the package's flux unit at frequency nu (Hz), for a source at 1 kpc"""
     unit = pkg.get('flux_unit', 'mJy')
+    if unit == 'YJy':                    # 1e24 Jy: the stored numbers are the package's numbers times 2**flux_pow2 (about 1e-27, as in cgs flux densities)
+        return F(x) * F(2.0 ** pkg.get('flux_pow2', 0)) * 10 ** 27
     if unit in UNIT_MJY:
         return F(x) * UNIT_MJY[unit]
     if unit == 'erg / (cm2 s)':          # nu F_nu
@@ -159,8 +161,9 @@ def make_sed(pkg, n, unit=None):
         s.nu = nu * u.Hz
         s.wav = s.nu.to(u.micron, equivalencies=u.spectral())
     s.apertures = None if pkg['aps'] is None else np.array(pkg['aps']) * u.au
-    s.flux = np.array([_ord(row, sd['order']) for row in sd['flux']]) * u.Unit(unit)
-    s.error = np.array([_ord(row, sd['order']) for row in sd['err']]) * u.Unit(unit)
+    sc = 2.0 ** pkg.get('flux_pow2', 0)
+    s.flux = np.array([_ord(row, sd['order']) for row in sd['flux']]) * sc * u.Unit(unit)
+    s.error = np.array([_ord(row, sd['order']) for row in sd['err']]) * sc * u.Unit(unit)
     return s
 
 
@@ -225,7 +228,8 @@ def make_cube(pkg, with_unc=True):
     from astropy import units as u
     from sedfitter.sed import SEDCube
     c = SEDCube()
-    c.names = np.array(pkg['par_order'])
+    order = pkg.get('cube_names', pkg['par_order'])        # the cube lists the models in its own order (by default that of the parameter table)
+    c.names = np.array(order)
     c.distance = 1.0 * u.kpc
     o = pkg['cube_order']
     if 'wav' in pkg:
@@ -234,9 +238,11 @@ def make_cube(pkg, with_unc=True):
         c.nu = np.array(_ord(pkg['nu'], o)) * u.Hz
     c.apertures = None if pkg['aps'] is None else np.array(pkg['aps']) * u.au
     cu = u.Unit(pkg.get('flux_unit', 'mJy'))
-    c.val = np.array([[_ord(row, o) for row in pkg['seds'][n]['flux']] for n in pkg['par_order']]) * cu
+    sc = 2.0 ** pkg.get('flux_pow2', 0)
+    dt = np.float32 if pkg.get('cube_dtype') == 'float32' else float
+    c.val = (np.array([[_ord(row, o) for row in pkg['seds'][n]['flux']] for n in order]) * sc).astype(dt) * cu
     if with_unc:
-        c.unc = np.array([[_ord(row, o) for row in pkg['seds'][n]['err']] for n in pkg['par_order']]) * cu
+        c.unc = (np.array([[_ord(row, o) for row in pkg['seds'][n]['err']] for n in order]) * sc).astype(dt) * cu
     return c
 
 
